@@ -4183,14 +4183,32 @@ class SchemaValidator:
 
     def _namespace_imported_references(self):
         def prepend_schema_ref(schema_id, ref):
-            if utils.is_import_ref(ref):
+            # only references to entities of the schema are namespaced:
+            # variables, "$_item" / "$_object" paths and literals stay as they are
+            if (
+                not isinstance(ref, str)
+                or not utils.is_global_ref(ref)
+                or utils.is_import_ref(ref)
+            ):
                 return ref
             return utils.prepend_schema_id(schema_id, ref)
 
         def namespace_filter_refs_recursive(schema_id, clauses):
             for clause in clauses:
+                if not isinstance(clause, dict):
+                    continue
+
                 for side in ["left", "right"]:
-                    if side in clause:
+                    if side not in clause:
+                        continue
+
+                    if isinstance(clause[side], dict):
+                        # an operand object: {"ref": ...}
+                        if "ref" in clause[side]:
+                            clause[side]["ref"] = prepend_schema_ref(
+                                schema_id, clause[side]["ref"]
+                            )
+                    else:
                         clause[side] = prepend_schema_ref(schema_id, clause[side])
 
                 if "where" in clause:
